@@ -53,6 +53,8 @@ class C04(framework.PropertyCheck):
             case = {'tids': tids, 'lens': lens, 'seeds': [rng.randrange(1 << 30) for _ in tids], 'c': c, 'starts': starts,
                     'body': rng.choice(['print', 'acc', 'timeframe', 'value'])}
             if rng.random() < 0.3:
+                case['limit'] = rng.randint(1, 2)
+            if rng.random() < 0.3:
                 # the condition also reads a user variable; its name is drawn from the names the library's macro templates bind
                 # (count, find and whenever must treat the condition as the caller wrote it)
                 global _TS
@@ -116,6 +118,11 @@ class C04(framework.PropertyCheck):
                 body = f'(list {idx})'
             entry['body'] = body
             steps.append(('eval', 'eorg', f'(list (whenever {c} {body}) {idx} acc)'))
+            if case.get('limit'):
+                # the condition reads a variable the body changes: condition and body alternate, position by position
+                entry['limited'] = len(steps)
+                steps.append(('eval', 'eorg', f'(do (define lim{len(plan)} 0) (whenever (&& (< lim{len(plan)} {case["limit"]}) {c}) '
+                                              f'(set [lim{len(plan)} (+ lim{len(plan)} 1)]) (print "L" {idx})) (list lim{len(plan)} {idx}))'))
             plan.append(entry)
         return steps, plan
 
@@ -194,6 +201,16 @@ class C04(framework.PropertyCheck):
                 return {'what': 'whenever moved a trace', 'after': after, 'want': want_pos}
             if accv != ('I', acc):
                 return {'what': 'accumulator differs', 'got': accv, 'want': acc}
+            if 'limited' in en:
+                if en['limited'] >= len(iobs):
+                    return {'what': 'missing observations'}
+                o = iobs[en['limited']]
+                lh = hits[:case['limit']]
+                want_out = ''.join('L' + ''.join(str(p + d) for p in pos) + '\n' for d in lh)
+                want_val = ('L', True, (('I', len(lh)),) + want_pos)
+                if o[0] != 'ok' or o[2] != want_out or o[1] != want_val:
+                    return {'what': 'whenever: a condition that reads what the body changes must see the change from the next position on',
+                            'c': case['c'], 'limit': case['limit'], 'got': o, 'want': [want_val, want_out]}
         return None
 
     def nontrivial(self, case, iobs):
